@@ -407,6 +407,23 @@ def clist(items):
 
 # ---------------------------------------------------------------- findings / evidence
 
+def proof_params_pin():
+    """The accumulator proof parameters X, Y, Z, K are the hash-to-curve images of four distinct inputs: what the
+    independence assumption of the theorems on the accumulator proof (hidden mutual logs) rests on.  Returns failures."""
+    ops = [{"op": "d_proof_params", "nonce": n, "no_entropy": ne} for n, ne in (("", False), ("00", False), ("76657269666965722d6e6f6e6365", False), ("", True))]
+    out = []
+    for op, r in zip(ops, run_exec(ops)):
+        if r.get("r") != "ok":
+            raise Infra("d_proof_params: " + json.dumps(r)[:300])
+        bad = [k for k in ("x", "y", "z", "k", "distinct") if not r.get(k)]
+        if bad:
+            out.append({"class": None, "witness": False, "case": {"op": op, "result": r},
+                        "text": "correspondence broken: the accumulator proof parameters " + ", ".join(bad).upper() + " are not the independent hash-to-curve outputs "
+                                "(PREFIX ff/fe/fd/fc || nonce || key) the theorems' independence assumption on X, Y, Z rests on; a known relation between them lets an observer "
+                                "strip the randomisation of E_C, T_sigma, T_rho"})
+    return out
+
+
 def load_known_findings(pid):
     findings, fixed = [], []
     path = os.path.join(VERIF, "known-findings.txt")
